@@ -645,22 +645,36 @@ func tdJSON(td *TestDir) string {
 	return string(b)
 }
 
-func (rn *runner) violate(kind, oracle string, td *TestDir, u, model, impl, detail string) {
-	rn.res.Count(kind + ":" + oracle)
-	rn.res.Violate(common.Violation{Kind: kind, Oracle: oracle,
-		Input: map[string]string{"dir": tdJSON(td), "url": u, "url_hex": hx(u)},
-		Model: model, Impl: impl, Detail: detail, Key: oracle + ":" + u})
+func (rn *runner) violate(td *TestDir, fl failure, only *request) {
+	in := map[string]string{"dir": tdJSON(td), "url": fl.url, "url_hex": hx(fl.url), "url_text": fmt.Sprintf("%q", fl.url)}
+	if only != nil {
+		in["class"] = only.Class
+	} else {
+		in["class"] = "whole-directory"
+	}
+	rn.res.Violate(common.Violation{Kind: fl.kind, Oracle: fl.oracle, Input: in,
+		Model: fl.model, Impl: fl.impl, Detail: fl.detail, Key: fl.oracle + ":" + fl.url})
 }
 
-// evalDir runs every check on one directory. onlyURL != "" restricts the sequential phase (replay).
-// It returns the number of failures it saw (used by the shrinker).
-func (rn *runner) evalDir(td *TestDir, seed uint64, onlyURL string, report bool) int {
-	fails := 0
+// classOf recovers the request class from an oracle name ("serves-stored/zip", "response:hash", ...).
+func classOf(oracle string) string {
+	if strings.HasPrefix(oracle, "serves-stored/") || strings.HasPrefix(oracle, "concurrent-correct/") {
+		return "stored-" + oracle[strings.Index(oracle, "/")+1:]
+	}
+	if i := strings.IndexAny(oracle, ":/"); i >= 0 {
+		return oracle[i+1:]
+	}
+	return "replay"
+}
+
+type failure struct{ kind, oracle, url, model, impl, detail string }
+
+// evalDir runs every check on one directory and returns the failures it saw; only != nil
+// restricts it to that one request (replay and shrinking). report=false keeps it out of the statistics.
+func (rn *runner) evalDir(td *TestDir, seed uint64, only *request, report bool) []failure {
+	var fails []failure
 	fail := func(kind, oracle, u, model, impl, detail string) {
-		fails++
-		if report {
-			rn.violate(kind, oracle, td, u, model, impl, detail)
-		}
+		fails = append(fails, failure{kind, oracle, u, model, impl, detail})
 	}
 	rn.ndir++
 	root := filepath.Join(rn.f.Work, fmt.Sprintf("dir%05d", rn.ndir))
@@ -669,27 +683,31 @@ func (rn *runner) evalDir(td *TestDir, seed uint64, onlyURL string, report bool)
 		if report {
 			rn.res.Count("skipped:cannot-materialise")
 		}
-		return 0
+		return nil
 	}
 	dreq, err := encodeDir(root)
 	if err != nil {
 		rn.res.Notes = append(rn.res.Notes, "cannot read directory back: "+err.Error())
-		return 0
+		return nil
 	}
 	r := common.NewRNG(seed)
 	reqs := td.requests(r, rn.f.Tier)
-	if onlyURL != "" {
-		reqs = append([]request{{URL: onlyURL, Class: "replay"}}, reqs...)
+	if only != nil && only.URL != "" {
+		q := request{URL: only.URL, Class: only.Class}
 		for i := range td.Mods {
 			for _, ext := range []string{"info", "mod", "zip"} {
-				if u, ok := fileURL(td.Mods[i].Path, td.Mods[i].Vers, ext); ok && u == onlyURL {
-					reqs[0] = request{URL: u, Class: "stored-" + ext, Mod: &td.Mods[i], Ext: ext}
+				if u, ok := fileURL(td.Mods[i].Path, td.Mods[i].Vers, ext); ok && u == only.URL && only.Class == "stored-"+ext {
+					q.Mod, q.Ext = &td.Mods[i], ext
 				}
 			}
-			if u, ok := listURL(td.Mods[i].Path); ok && u == onlyURL {
-				reqs[0] = request{URL: u, Class: "stored-list", Mod: &td.Mods[i], Ext: "list"}
+			if u, ok := listURL(td.Mods[i].Path); ok && u == only.URL && only.Class == "stored-list" && q.Mod == nil {
+				q.Mod, q.Ext = &td.Mods[i], "list"
 			}
 		}
+		if strings.HasPrefix(q.Class, "stored-") && q.Mod == nil {
+			q.Class = "replay" // the module version is no longer in the directory
+		}
+		reqs = []request{q}
 	}
 
 	// ---- model: server start and the module list
@@ -707,8 +725,8 @@ func (rn *runner) evalDir(td *TestDir, seed uint64, onlyURL string, report bool)
 	tModel += time.Since(t0)
 	if err != nil {
 		rn.res.Notes = append(rn.res.Notes, "model error: "+err.Error())
-		rn.res.Violate(common.Violation{Kind: "correspondence", Oracle: "model-process", Key: "model-died", Detail: err.Error(), Input: map[string]string{}})
-		return 1
+		fail("correspondence", "model-process", "", "", "", err.Error())
+		return fails
 	}
 	modelStarts := mans[1] != "err"
 	// the sequential phase runs on ONE server: the model's answers for it are those of one server
@@ -818,9 +836,6 @@ func (rn *runner) evalDir(td *TestDir, seed uint64, onlyURL string, report bool)
 			}
 		}
 	}
-	if onlyURL != "" && fails > 0 {
-		return fails
-	}
 
 	// ---- concurrent first requests: a fresh server, 16 simultaneous requests per module version
 	// (zip, info and a hash request), all released together
@@ -830,7 +845,7 @@ func (rn *runner) evalDir(td *TestDir, seed uint64, onlyURL string, report bool)
 	}
 	var jobs []cjob
 	for i, q := range reqs {
-		if (q.Class == "stored-zip" || q.Class == "stored-info" || q.Class == "hash") && sendable(q.URL) {
+		if (q.Class == "stored-zip" || q.Class == "stored-info" || q.Class == "hash" || only != nil) && sendable(q.URL) {
 			jobs = append(jobs, cjob{q, i})
 		}
 	}
@@ -918,7 +933,7 @@ func (rn *runner) evalDir(td *TestDir, seed uint64, onlyURL string, report bool)
 				rn.res.Count("model-interleaving")
 			}
 			if a != strings.Join(want, " | ") {
-				fail("correspondence", "model-interleaving", strings.Join(sched, ","), clip([]byte(a)), "", "an interleaving of the model's handlers does not give the sequential responses")
+				fail("correspondence", "model-interleaving", "", clip([]byte(a)), "", "an interleaving of the model's handlers does not give the sequential responses; schedule "+strings.Join(sched, ",")+" over "+strings.Join(us, " "))
 			}
 		}
 	}
@@ -1075,7 +1090,7 @@ func (rn *runner) goModDownload(tds []*TestDir, limit int) {
 			okc++
 			if bad != "" {
 				u, _ := fileURL(m.Path, m.Vers, "zip")
-				rn.violate("impl-violation", "go-mod-download/"+bad, td, u, "", "", "what the go command downloaded differs from the stored module")
+				rn.violate(td, failure{"impl-violation", "go-mod-download/" + bad, u, "", "", "what the go command downloaded differs from the stored module"}, &request{URL: u, Class: "stored-zip"})
 			}
 		}
 		srv.Close()
@@ -1126,29 +1141,66 @@ func main() {
 			fmt.Fprintln(os.Stderr, "replay has no directory:", err)
 			os.Exit(2)
 		}
-		rn.evalDir(&td, f.Seed, rp.Violation.Input["url"], true)
+		var only *request
+		if u := rp.Violation.Input["url"]; u != "" && rp.Violation.Input["class"] != "whole-directory" {
+			only = &request{URL: u, Class: rp.Violation.Input["class"]}
+		}
+		fs := rn.evalDir(&td, f.Seed, only, true)
+		if len(fs) == 0 && only != nil {
+			// not reproduced by the single request: the failure may need the earlier requests
+			fs = rn.evalDir(&td, f.Seed, nil, true)
+		}
+		for _, fl := range fs {
+			rn.violate(&td, fl, only)
+		}
 		res.Rule = "replay of one directory and URL"
 		res.Write(f.Out)
 		return
 	}
 
 	var all []*TestDir
+	shrunkPerOracle := map[string]int{}
 	one := func(td *TestDir, seed uint64) {
 		all = append(all, td)
-		before := len(res.Violations)
-		if rn.evalDir(td, seed, "", true) > 0 && len(res.Violations) > before && len(td.Mods) > 1 {
-			// shrink the directory: drop module versions while the same request still fails
-			v := res.Violations[len(res.Violations)-1]
-			u := v.Input["url"]
-			mods := common.ShrinkList(td.Mods, func(ms []Mod) bool {
-				c := &TestDir{Mods: ms, Extras: td.Extras, Clean: td.Clean}
-				return rn.evalDir(c, seed, u, false) > 0
-			})
-			if len(mods) < len(td.Mods) {
-				c := &TestDir{Mods: mods, Extras: td.Extras, Clean: td.Clean}
-				res.Violations[len(res.Violations)-1].Input["dir"] = tdJSON(c)
-				res.Violations[len(res.Violations)-1].Input["dir_unshrunk"] = tdJSON(td)
+		fs := rn.evalDir(td, seed, nil, true)
+		done := 0
+		for _, fl := range fs {
+			key := fl.kind + ":" + fl.oracle
+			res.Count("failure:" + key)
+			if shrunkPerOracle[key] >= 3 || done >= 2 || len(res.Violations) >= 20 {
+				continue
 			}
+			shrunkPerOracle[key]++
+			done++
+			// shrink the directory: drop module versions while the same oracle still fails on the same URL
+			var only *request
+			if fl.url != "" {
+				only = &request{URL: fl.url, Class: classOf(fl.oracle)}
+			}
+			same := func(c *TestDir) *failure {
+				for _, g := range rn.evalDir(c, seed, only, false) {
+					if g.kind == fl.kind && g.oracle == fl.oracle && g.url == fl.url {
+						return &g
+					}
+				}
+				return nil
+			}
+			best, bestF := td, fl
+			if only != nil && same(td) == nil {
+				only = nil // the failure needs the earlier requests: evaluate whole directories
+			}
+			if len(td.Mods) > 1 {
+				mods := common.ShrinkList(td.Mods, func(ms []Mod) bool {
+					return same(&TestDir{Mods: ms, Extras: td.Extras, Clean: td.Clean, Probes: td.Probes}) != nil
+				})
+				if len(mods) < len(td.Mods) {
+					c := &TestDir{Mods: mods, Extras: td.Extras, Clean: td.Clean, Probes: td.Probes}
+					if g := same(c); g != nil {
+						best, bestF = c, *g
+					}
+				}
+			}
+			rn.violate(best, bestF, only)
 		}
 	}
 
